@@ -5,14 +5,14 @@ from acnportal.acnsim import EV, EVSE, Battery, FiniteRatesEVSE, Linear2StageBat
 
 from ..obs import patched_normal, stored_charge
 from ..runner import Given, require
-from .c14 import PERIOD, PILOT, VOLT, battery_params
+from .c14 import PERIOD, PILOT, TINY_PILOT, VOLT, battery_params
 
 ID = "C03"
 RULE = (
     "(a) battery level: Hypothesis draws a battery of each model (ideal; two-stage continuous / "
     "stepwise; noise level 0, 0.05, 1, 5 kW) with capacity, initial charge (mass at 0, around the "
     "transition SoC, full), max power, transition SoC, voltage, period, a SEQUENCE of 1-30 pilots "
-    "from {0} u [1e-8,1e3] A applied one after another through EVSE.set_pilot -> EV.charge -> "
+    "from {0} u {5e-324 .. 1e-10} u [1e-8,1e3] A applied one after another through EVSE.set_pilot -> EV.charge -> "
     "Battery.charge (the EV is occasionally unplugged and plugged into another idle EVSE; in a quarter of the cases the EVSE is finite-rate and the pilots sit up to 1e-3 A off its levels; a refused reset above capacity may be interleaved), and the noise draws themselves (numpy.random.normal is patched to hand out "
     "generated standard-normal values incl. 0, +-0.01, +-3, +-6 sigma). After every step: "
     "-1e-8 <= rate <= pilot+1e-8 A, power <= max power, rate*V = power, stored charge non-decreasing "
@@ -22,7 +22,7 @@ RULE = (
     "than the pilot power; distinct by spec hash."
 )
 ASSUMPTIONS = [
-    "non-zero pilots below 1e-8 A are outside the generated domain (DESIGN.md section 5)",
+    "non-zero pilots down to 5e-324 A are generated since the D14 repair (before, values below 1e-8 A were treated as outside the domain)",
     "slack: 1e-8 A on currents, 1e-9 relative on power, max(1e-12*capacity, 1e-8 A * V * T) on stored charge",
 ]
 
@@ -140,7 +140,7 @@ Z = st.one_of(st.sampled_from([0.0, 0.01, -0.01, 3.0, -3.0, 6.0, -6.0, 1.0, -1.0
 def cases(draw):
     cap, init, maxp, tsoc = draw(battery_params())
     model = draw(st.sampled_from(["ideal", "cont", "cont", "step", "step"]))
-    pilots = draw(st.lists(PILOT, min_size=1, max_size=30))
+    pilots = draw(st.lists(st.one_of(PILOT, PILOT, PILOT, TINY_PILOT), min_size=1, max_size=30))
     levels = None
     ints = draw(st.integers(0, 4)) == 0
     if ints:
